@@ -109,6 +109,10 @@ func ValidateClientConfig(scheme string, clientconfig *proxyv1alpha1.ClientConfi
 		if !clientconfig.Insecure && len(clientconfig.CAData) == 0 {
 			allErrs = append(allErrs, field.Required(fldPath.Child("caData"), "clientConfig must supply caData when using secure mode"))
 		}
+		if clientconfig.Insecure && len(clientconfig.CAData) > 0 {
+			// client-go refuses to build a TLS config from a root CA together with the insecure flag
+			allErrs = append(allErrs, field.Invalid(fldPath.Child("caData"), "", "caData must not be set when insecure is true"))
+		}
 
 		var hasToken, hasKey, hasCert bool
 		if len(clientconfig.BearerToken) > 0 {
